@@ -14,3 +14,9 @@ func (s *ActiveScenario) VerifNewIterationState() *VerifIterState { return s.new
 func VerifStateT(st *VerifIterState) *testing.T { return st.t }
 
 func (s *ActiveScenario) VerifSetupT() *testing.T { return s.t }
+
+// VerifPending reads the pending-request counter of a trigger pool.
+func (p *TriggerPool) VerifPending() int64 { return p.jobsToExecute.num.Load() }
+
+// VerifStopped reports whether the pool has been told to stop.
+func (p *TriggerPool) VerifStopped() bool { return p.stopWorkers.Load() }
